@@ -36,15 +36,23 @@ pub fn child_entry() -> Option<i32> {
 }
 
 fn binary_isolated(c: &logistic::LogitCase, obs: &mut Obs) {
-    isolate::isolated("binary", c, obs, "")
+    // a fit that never returns gets its own signature when the gradient tolerance is at the float resolution of the
+    // problem (NaN iterate -> NaN loss -> endless line search); only evaluated when a case was killed
+    let suffix = || if logistic::tolerance_at_gradient_resolution(c) { ":nan-iterate-at-cost-resolution".to_string() } else { String::new() };
+    isolate::isolated_with("binary", c, obs, &suffix)
 }
 fn multinomial_isolated(c: &logistic::LogitCase, obs: &mut Obs) {
     // a fit that never returns is attributed to the known log_sum_exp defect when the harness' own minimiser or the
     // solver's first trial point lies in or near the region where linfa's global-max shift + clamp falsifies the loss:
     // the line search then works with inconsistent values and has no iteration limit (only evaluated when a case was killed)
-    let suffix = || match logistic::deficit_at_own_minimiser(c) {
-        Some(d) if d >= logistic::LSE_DEFECT_REACH => ":log-sum-exp-global-max".to_string(),
-        _ => String::new(),
+    let suffix = || {
+        if logistic::tolerance_at_gradient_resolution(c) {
+            return ":nan-iterate-at-cost-resolution".to_string();
+        }
+        match logistic::deficit_at_own_minimiser(c) {
+            Some(d) if d >= logistic::LSE_DEFECT_REACH => ":log-sum-exp-global-max".to_string(),
+            _ => String::new(),
+        }
     };
     isolate::isolated_with("multinomial", c, obs, &suffix)
 }
@@ -161,18 +169,18 @@ pub fn property() -> Property {
                logistic/Gumbel noise, class balance 0.1..0.9 / 2..6 classes, label type bool|usize|String with permuted names, permuted sample order, \
                alpha {0,1e-3,1,10}, intercept on/off, optional initial parameters, gradient tolerance {1e-4,1e-6}, decision threshold); every case is \
                fitted twice (generated order/naming and canonical order with usize labels). GLM cases = (12..80 rows x 1..4 features) x power {0,1,1.2,1.5,1.8,2,3} x link \
-               {identity,log,logit} x alpha {0,1e-3,1,10} x intercept on/off x tol {1e-4,1e-6}, targets generated from the model with multiplicative noise, exact zeros for 1<=power<2, planted out-of-support \
+               {identity,log,logit} x alpha {0,1e-3,1,10} x intercept on/off x tol {1e-4,1e-6} x target scale 10^{-9,-8,-6,-3,0,3,6}, targets generated from the model with multiplicative noise, exact zeros for 1<=power<2, planted out-of-support \
                targets. Non-trivial = (alpha = 0 and the harness certified overlapping classes) or (String labels whose names are not in class-index \
                order) or (GLM with 1 <= power < 2 that was judged) or an oracle self-test case; distinct = distinct canonical JSON of the case",
         assumptions: vec![
             format!(
-                "stationarity bound: |grad|_2 <= {}*gradient_tolerance + {:e}*sqrt(curv*max(1,|F|)), grad = analytic gradient of the harness' own objective, \
-                 curv = trace of its (Fisher) curvature at the returned point; the second term is the gradient size of a point whose objective is within 22 eps|F| of the minimum",
+                "stationarity bound: |grad|_2 <= {}*gradient_tolerance + {:e}*sqrt(curv*max(1,M)), M = sum of the magnitudes of the pieces added/subtracted to form F (= |F| for the logistic losses; for Tweedie deviances the cancelling terms, e.g. ~1e8 per sample for power 3 at targets ~1e-8), grad = analytic gradient of the harness' own objective, \
+                 curv = trace of its (Fisher) curvature at the returned point; the second term is the gradient size of a point whose objective is within 22 eps*M of the minimum",
                 model::GRAD_SLACK,
                 model::RESOLUTION_FACTOR
             ),
             format!(
-                "a fit whose gradient exceeds the bound but whose objective is within {:e}*max(1,|F|) of the harness' Newton-polished local minimum is counted as \
+                "a fit whose gradient exceeds the bound but whose objective is within {:e}*max(1,M) of the harness' Newton-polished local minimum is counted as \
                  'stalled at cost resolution' and not judged on stationarity (argmin stops on |prev_cost-cost| < eps and returns the last strictly better cost)",
                 model::STALL_REL
             ),
@@ -212,6 +220,9 @@ pub fn property() -> Property {
             "a multinomial non-stationary result is attributed to the known log_sum_exp defect (own signature) only when the loss recomputed with linfa's global-max shift and 1e-15 clamp differs              from the true loss at the returned point or at the harness-polished minimiser, or when some training row's log-sum-exp lies >= 30 below the global score maximum at one of \
              these two points (the clamp acts from 34.54 on; solvers were observed to stop at the edge of that region)"
                 .into(),
+            "GLM target scale: the targets are multiplied by 10^s, s in {0 (5 of 12), -9, -8 (2 of 12), -6, -3, 3, 6}; log and logit models then always get an intercept (the scale can only move into it), the logit link \
+             takes s <= 0 only; a returned point whose gradient exceeds 10*tol while the curvature estimate overflows (means ~1e-120) is counted, not judged"
+                .into(),
             "only f64 is exercised".into(),
             format!("oracle self-test: analytic gradient/Hessian of the harness objectives agree with central differences within {:e} relative", FD_TOL),
         ],
@@ -224,7 +235,17 @@ pub fn property() -> Property {
                 .require(&["alpha0_overlapping", "labels_string", "labels_bool", "binary_extreme_scores", "threshold_at_boundary", "imbalanced"]),
             prop_sub("glm", 9000, 90000, glm::case_strategy, glm_isolated)
                 .chunks(16)
-                .require(&["power_between_1_and_2", "power_1_poisson", "link_logit", "link_identity", "target_outside_support", "zero_targets_in_support"]),
+                .require(&[
+                    "power_between_1_and_2",
+                    "power_1_poisson",
+                    "link_logit",
+                    "link_identity",
+                    "target_outside_support",
+                    "zero_targets_in_support",
+                    "target_scale_1e-8",
+                    "target_scale_1e6",
+                    "tiny_targets_log_link_solver_moved",
+                ]),
             prop_sub("oracle_selftest", 1200, 6000, |_t: Tier| self_strategy(), selftest).chunks(2),
         ],
     }
